@@ -134,6 +134,22 @@ let () =
       | z -> Validation.GInt (z_of_string z)) in
     let g = next_list (next_list entry) t in
     out_opt (out_list (out_list (fun z -> out_int (int_of_z z)))) (Validation.check_groups_entries g d));
+  (* the REGENERATED check_groups (Gen/ValidationRules.v), same input; entries printed in the input notation *)
+  register "c16.groupsgen" (fun t -> let d = next_nat t in
+    let entry t = (match next t with
+      | "o" -> Validation.GOther | "b0" -> Validation.GBool false | "b1" -> Validation.GBool true
+      | z -> Validation.GInt (z_of_string z)) in
+    let g = next_list (next_list entry) t in
+    let out_entry = (function Validation.GOther -> out_s "o" | Validation.GBool b -> out_s (if b then "b1" else "b0")
+      | Validation.GInt z -> out_int (int_of_z z)) in
+    out_opt (out_list (out_list out_entry)) (ValidationRules.check_groups_gen g d));
+  (* douglas <mask_none> <len_ok> <sel_ok> <params_ok> <x_ok> <samples_ok> <affinity_ok> -> accepted, attributes in write order *)
+  register "c16.douglas" (fun t ->
+    let mn = next_bool t in let lo = next_bool t in let so = next_bool t in
+    let p = next_bool t in let x = next_bool t in let m = next_bool t in let a = next_bool t in
+    let k = { Validation.params_ok = p; x_ok = x; samples_ok = m; groups_ok = true; cross_ok = true; affinity_ok = a } in
+    let (acc, written) = Validation.run (Validation.fit_douglas mn lo so k) [] in
+    out_bool acc; out_list out_name (Stdlib.List.rev written));
   register "c16.precomputed" (fun t ->
     let ndim = next_nat t in let rows = next_nat t in let cols = next_nat t in let n = next_nat t in
     let numeric = next_bool t in let finite = next_bool t in
